@@ -321,6 +321,10 @@ def delete_geff(store: StoreLike, zarr_format: Literal[2, 3] = 2) -> None:
     except (FileNotFoundError, ValueError):
         root = setup_zarr_group(store, zarr_format=zarr_format)
 
+    # Delete the geff metadata first: without it, whatever an interrupted deletion of the
+    # node and edge groups leaves behind is not recognised as a geff
+    del root.attrs["geff"]
+
     # Delete node and edge groups
     del root[_path.NODES]
     del root[_path.EDGES]
@@ -341,13 +345,10 @@ def delete_geff(store: StoreLike, zarr_format: Literal[2, 3] = 2) -> None:
                     "Cannot delete root zarr directory, but geff contents have been deleted",
                     stacklevel=2,
                 )
-                del root.attrs["geff"]
     else:
         warnings.warn(
             "Found non-geff members in zarr. Exiting without deleting root zarr.", stacklevel=2
         )
-        # Delete geff metadata from attrs
-        del root.attrs["geff"]
 
 
 def check_for_geff(store: StoreLike, zarr_format: Literal[2, 3] = 2) -> bool:
